@@ -35,7 +35,12 @@ def run_part(ck):
     if ck.thorough:
         ck.leanchecker(["NfcVerif.Props.C03T34"])
     model = Model("drv_t34")
-    var = T.probe_variant()
+    try:
+        var = T.probe_variant()
+    except Exception as e:  # noqa - the tree under test broke the Type 4 activation / write path itself
+        ck.fail("t4-unexpected-exception", "probing the Type 4 write path raised %s: %s" % (exc_name(e), e),
+                {"layout": "L4(0x20, 4, 59, 1, 20)", "data": "010203"})
+        var = "abc"
     jobs = []
     nl3, nl4 = (150, 220) if ck.thorough else (24, 40)
     lays = []
